@@ -132,4 +132,31 @@ example : judgeRun { comp := .gate, initOpen := false, windows := [(4, 6), (2, 4
      ⟨4, .closeG, .dash, [1, 0, 0, 0, 0, 1], false⟩, ⟨5, .offer 0 none, .pass, [1, 0, 1, 0, 0, 1], false⟩,
      ⟨5, .done 0, .dash, [1, 0, 1, 0, 0, 1], false⟩, ⟨6, .closeG, .dash, [0, 0, 1, 0, 0, 1], false⟩] = none := by decide
 
+/-! ## ConveyorBelt: every offered item is in exactly one reported population -/
+
+/-- **Soundness (conveyor, exactly one state).** If the judge accepts an observation of a conveyor whose
+counters are `items_in_transit, items_transported, items_rejected`, these add up to the number of items
+offered so far: no item is counted in two populations (transported *and* still in transit) or in none. -/
+theorem judge_sound_conveyor_conservation (cfg : Cfg) (hc : cfg.comp = .conveyor) (j j' : Book) (o : Obs)
+    (h : judgeObs cfg j o = .ok j') (it tr rj : Nat) (hctr : o.ctr = [it, tr, rj]) :
+    it + tr + rj = j'.offered.length := by
+  obtain ⟨j1, _, hf⟩ := judgeObs_ok h
+  obtain ⟨_, _, hn⟩ := finishObs_ok' hf
+  unfold judgeCounters at hn
+  simp only [hc, hctr] at hn
+  split at hn
+  · cases hn
+  · rename_i hne
+    simpa using hne
+
+/-- the clause is not vacuous: an item handed over in the instant of its offer and still counted as in transit
+is rejected -/
+example : judgeRun { comp := .conveyor, limit := 2 } {} 0
+    [⟨0, .offer 7 none, .pass, [1, 1, 0], false⟩]
+    = some "indus/conveyor/conservation in_transit 1 + transported 1 + rejected 0 != offered 1 at-line 0" := by decide
+
+/-- … and the same hand-over with exact counters is accepted -/
+example : judgeRun { comp := .conveyor, limit := 2 } {} 0
+    [⟨0, .offer 7 none, .pass, [0, 1, 0], false⟩, ⟨0, .done 7, .dash, [0, 1, 0], false⟩] = none := by decide
+
 end HappyModel.C08.Indus
